@@ -212,6 +212,11 @@ func (fx *FnCtx) runGhost(site string, st *State, env *Env) {
 				if pc == nil {
 					pc = True
 				}
+				if gs.Assume {
+					fx.root.noteOnce("ASSUMED in " + fx.fn.Name() + " at " + site + ": " + gs.Src)
+					fx.assume(Implies(pc, cond))
+					continue
+				}
 				name := fx.oblName(strings.ReplaceAll(site, " ", "") + ".assert")
 				fx.addObl(name, "assert", pc, cond, nil, nil, "intermediate assertion at "+site+": "+gs.Src)
 				fx.assume(Implies(pc, cond))
